@@ -65,10 +65,12 @@ def classify(spec, diff):
     return "links=" + "+".join(kinds) if kinds else "links=none"
 
 
-def run_perm(spec, opts, perm, cperm=None):
+def run_perm(spec, opts, perm, cperm=None, wperm=None):
     sp = dict(spec, hash=list(perm))
     if cperm is not None:
         sp["chash"] = list(cperm)
+    if wperm is not None:
+        sp["whash"] = list(wperm)
     ex = runner.run(sp, dict(opts, phases=()))
     return ex
 
@@ -86,20 +88,25 @@ def work_perms(chunk):
         col.states.add(hash((key, ref)))
         outcomes = {ref}
         cperms = list(itertools.permutations(range(nc))) if nc else [None]
-        for perm in itertools.permutations(range(n)):
-            for cperm in cperms:
-                if perm == ident and (cperm is None or cperm == tuple(range(nc))):
+        nw = len(F.worker_names(spec))
+        # hash ranks of workers: every order for <= 3 workers (sets of workers do not occur in the library today,
+        # a change that introduces one must not make results depend on them either)
+        wperms = list(itertools.permutations(range(nw))) if 2 <= nw <= 3 else [None]
+        combos = [(p_, c_, None) for p_ in itertools.permutations(range(n)) for c_ in cperms] + [(ident, cperms[0], w_) for w_ in wperms[1:]]
+        for perm, cperm, wperm in combos:
+            if True:
+                if perm == ident and (cperm is None or cperm == tuple(range(nc))) and wperm is None:
                     continue
-                ex = run_perm(spec, opts, perm, cperm)
+                ex = run_perm(spec, opts, perm, cperm, wperm)
                 col.evaluations += 1
                 col.checks["c09.perm"] += 1
                 got = jdump(ex.m) if ex.error is None else "ERR:" + ex.error
-                col.transitions.add(hash((key, perm, cperm)))
+                col.transitions.add(hash((key, perm, cperm, wperm)))
                 outcomes.add(got)
                 if got != ref:
                     d = first_diff(ref, got) if not (ref.startswith("ERR") or got.startswith("ERR")) else ("error", ref[:80], got[:80])
                     col.violation({"property": "C09", "sig": "C09:result-depends-on-set-iteration-order:" + classify(spec, d), "kind": "perm",
-                                   "spec": spec, "opts": opts, "perm": list(perm), "cperm": list(cperm) if cperm else None,
+                                   "spec": spec, "opts": opts, "perm": list(perm), "cperm": list(cperm) if cperm else None, "wperm": list(wperm) if wperm else None,
                                    "detail": {"first_difference(path, identity-order, permuted)": d}})
         col.outcomes[len(outcomes)] += 1
         if len(spec.get("links", [])) > 0:
@@ -127,6 +134,21 @@ def work_hist(chunk):
         if d1 != d2:
             col.violation({"property": "C09", "sig": "C09:second-simulate-on-same-object-differs", "kind": "hist", "spec": spec, "opts": opts, "hist": "sim;sim",
                            "detail": {"first_difference": first_diff(d1, d2)}})
+        # (1b) backward run(s) on the same object, then forward: must equal the forward run of a fresh object
+        for due, rev in itertools.product((False, True), repeat=2):
+            mo = runner.prepare(spec, opts)
+            try:
+                mo.project.backward_simulate(**dict(runner.sim_kwargs(opts), considering_due_time_of_tail_tasks=due, reverse_log_information=rev))
+                mo.project.simulate(**runner.sim_kwargs(opts))
+                d3 = jdump(mo)
+            except Exception as e:
+                d3 = "ERR:" + repr(e)
+            col.evaluations += 2
+            col.checks["c09.backward-then-forward"] += 1
+            col.transitions.add(hash((key, "back;sim", due, rev)))
+            if d3 != d1:
+                col.violation({"property": "C09", "sig": "C09:forward-run-after-backward-run-on-same-object-differs:due=%s" % due, "kind": "hist", "spec": spec, "opts": opts, "hist": "back(due=%s,rev=%s);sim" % (due, rev),
+                               "detail": {"first_difference": first_diff(d1, d3) if not d3.startswith("ERR") else d3}})
         # (2) rebuilt model with the library's own classes (id()-hashed, new addresses), twice
         junk = [object() for _ in range(17)]
         e1 = runner.run(spec, dict(opts, plain=True, phases=()))
@@ -138,7 +160,7 @@ def work_hist(chunk):
         col.transitions.add(hash((key, "rebuild")))
         a, b = jdump(e1.m), jdump(e2.m)
         if a != b or a != d1:
-            col.violation({"property": "C09", "sig": "C09:rebuilt-model-gives-different-result:" + classify(spec, None), "kind": "hist", "spec": spec, "opts": opts, "hist": "rebuild",
+            col.violation({"property": "C09", "sig": "C09:rebuilt-model-gives-different-result:" + classify(spec, None), "kind": "hist", "spec": spec, "opts": opts, "hist": "rebuild", "address_dependent": True,
                            "detail": {"first_difference": first_diff(a, b) or first_diff(a, d1)}})
         # (3) hidden state: default-argument simulate on fresh B before and after activity on A
         bootstrap.reset_mutable_defaults()
@@ -287,6 +309,11 @@ def perm_items(tier):
             sp = F.with_teams(fl, lay)
             for rule in rules:
                 out.append((sp, {"rule": rule, "max_time": F.seq_bound(sp) + 6}))
+    # three interchangeable workers: after the first allocation of a step two tied candidates remain
+    for fl in list(F.flows(3, ("FS", "SS"), (1, 2)))[:: (3 if tier == "quick" else 1)]:
+        for lay in ("POOL3", "SOLO"):
+            sp = F.with_teams(fl, lay)
+            out.append((sp, {"rule": "TSLACK", "max_time": F.seq_bound(sp) + 6}))
     if tier == "thorough":
         for fl in F.flows(4, ("FS", "FF", "SS"), (1,)):
             sp = F.with_teams(fl, "DED")
@@ -305,8 +332,12 @@ def hist_items(tier):
         flows = flows[::3]
     for fl in flows:
         sp = F.with_teams(fl, "POOL2")
+        sp = dict(sp, tasks=[dict(t, due=(4, 9, 6)[i]) for i, t in enumerate(sp["tasks"])])
         out.append((sp, {"rule": "TSLACK", "max_time": F.seq_bound(sp) + 6}))
         out.append((sp, {"rule": "TSLACK", "absence": [1], "max_time": F.seq_bound(sp) + 7}))
+        sp1 = F.with_teams(fl, "POOL1")
+        sp1 = dict(sp1, tasks=[dict(t, due=(10, 20, 5)[i]) for i, t in enumerate(sp1["tasks"])])
+        out.append((sp1, {"rule": "TSLACK", "max_time": F.seq_bound(sp1) + 6}))
     for sp in list(F.fac_specs("quick"))[::9]:
         out.append((sp, {"rule": "TSLACK", "max_time": F.seq_bound(sp) + 6}))
     return out
@@ -340,7 +371,7 @@ def cross_process(col):
     col.extra["cross_process_models"] += int(outs[0].split()[0])
     col.evaluations += 2 * int(outs[0].split()[0])
     if outs[0] != outs[1]:
-        col.violation({"property": "C09", "sig": "C09:fresh-process-result-differs", "kind": "proc", "detail": {"digests": outs}})
+        col.violation({"property": "C09", "sig": "C09:fresh-process-result-differs", "kind": "proc", "address_dependent": True, "detail": {"digests": outs}})
 
 
 def run(tier, seed):
@@ -355,7 +386,7 @@ def run(tier, seed):
         "level": "model_checking",
         "rule": "schedule exploration: for every 3-task workflow over the four dependency kinds x works {1,2} x layouts x rules (thorough: also 4-task FS/FF/SS) and FAC models, ALL n! "
         "assignments of hash ranks to tasks (and all permutations for components), i.e. every iteration order of every internal set of tasks/components, complete dump compared with "
-        "the identity order; histories on one object (simulate;simulate), rebuilt models with the library's id()-hashed classes, contamination histories (activity on project A, then "
+        "the identity order (and all orders of worker hashes); histories on one object (simulate;simulate, backward_simulate with every flag pair then simulate), rebuilt models with the library's id()-hashed classes, contamination histories (activity on project A, then "
         "default-argument simulate on a fresh project B, mutable defaults compared), and one sub-family in two fresh interpreters with different PYTHONHASHSEED; per-iteration-event deviations: with a set subclass injected into the library's modules, every single iteration "
         "event of a run is given every alternative order of that set (deviation bound 1) on 2-3 task models; "
         "non-trivial = distinct models with at least one dependency link (permutations) or explored history roots",
@@ -369,7 +400,7 @@ def run(tier, seed):
 def replay(v):
     if v.get("kind") == "perm":
         base = run_perm(v["spec"], v["opts"], tuple(range(len(v["spec"]["tasks"]))), tuple(range(len(v["spec"].get("components", [])))) or None)
-        ex = run_perm(v["spec"], v["opts"], v["perm"], v.get("cperm"))
+        ex = run_perm(v["spec"], v["opts"], v["perm"], v.get("cperm"), v.get("wperm"))
         a = jdump(base.m) if base.error is None else "ERR:" + base.error
         b = jdump(ex.m) if ex.error is None else "ERR:" + ex.error
         return [{"sig": v["sig"], "detail": first_diff(a, b) if not (a.startswith("ERR") or b.startswith("ERR")) else (a[:80], b[:80])}] if a != b else []
